@@ -139,6 +139,14 @@ fn random_call(rng: &mut Rng) -> Call {
         cfg.use_fixed = rng.chance(50);
         cfg.lpc_order = *rng.pick(&[2usize, 8, 12, 24]);
     }
+    // experimental estimators (direct MSE / IRLS-MAE) keep per-thread state of their own; only in the
+    // dedicated experimental run (the generator must not depend on the build in cross-build comparisons)
+    if cfg!(feature = "experimental") && std::env::var("FVH_EXPERIMENTAL").is_ok() && rng.chance(60) {
+        cfg.use_lpc = true;
+        cfg.use_direct_mse = true;
+        cfg.mae_steps = *rng.pick(&[0usize, 1, 2, 3]);
+        cfg.lpc_order = *rng.pick(&[2usize, 4, 8, 12]);
+    }
     let bs = cfg.block_size;
     let fam = *rng.pick(&["sine_noise", "sine_noise", "sine_small", "ramp", "white", "heavy_tail", "anti_stereo", "impulses", "fullscale"]);
     let ch = *rng.pick(&[1usize, 1, 2, 2, 2, 3, 8]);
